@@ -8,52 +8,76 @@
    `tlc -simulate` prints the history of every behaviour that reaches depth D. *)
 EXTENDS SignalingRelay, Json, TLCExt
 
-CONSTANTS MaxStim,  \* stimuli per behaviour
+CONSTANTS Cats,     \* stimulus categories this generator uses: subset of {"conn", "flow", "odd", "gate"}
+          MaxStim,  \* stimuli per behaviour
           MaxOdd    \* at most this many protocol-violating / stale-stamped stimuli per behaviour
-VARIABLES hist, waited, odd, done
+VARIABLES hist, waited, odd, done, held, cat
 
-gvars == <<vars, hist, waited, odd, done>>
+gvars == <<vars, hist, waited, odd, done, held, cat>>
 
-GInit == Init /\ hist = <<>> /\ waited = TRUE /\ odd = 0 /\ done = FALSE
+GInit == Init /\ hist = <<>> /\ waited = TRUE /\ odd = 0 /\ done = FALSE /\ held = {} /\ cat = "none"
 
-CanStim == (waited => Quiescent)
+\* quiescence of everything the driver is not holding back
+QuiescentFree == /\ \A c \in Call \ held : cst[c] = "reg" => wch[c] = "cur"
+                 /\ \A l \in LCall \ held : lst[l] = "run" => lwch[l] = "cur"
+CanStim == (waited => QuiescentFree)
 
 Rec(h) == hist' = Append(hist, h)
 
-SigClass == {"tamper", "forged", "foreign", "ctx"}
+SigClass == {"tamper", "forged", "foreign", "ctx", "reflect"}
 
 \* an ack / clear that names a message actually in flight (everything else is counted against the odd budget)
 AckUseful(c, st, n) == st = "cur" /\ Local(c) = c /\ Remote(c) # None /\ trk[c].recvSent = n
 ClearUseful(c, st, n) == st = "cur" /\ Local(c) = c /\ Remote(c) # None /\ (trk[Remote(c)].recv = n \/ trk[Remote(c)].recvSent = n)
 
-Odd(b) == IF b THEN odd < MaxOdd /\ odd' = odd + 1 ELSE odd' = odd
+\* TLC -simulate picks uniformly among successor states; a two-level choice (category first, then the stimulus)
+\* keeps the many protocol-violating variants from crowding out the message flow
+Odd(b) == IF b THEN odd < MaxOdd /\ odd' = odd + 1 /\ cat = "odd" ELSE odd' = odd /\ cat # "odd"
+Cat(k) == cat = k \/ (k = "flow" /\ cat = "flow2")
 
 Stim ==
-  /\ CanStim /\ Len(hist) < MaxStim /\ UNCHANGED done
+  /\ CanStim /\ Len(hist) < MaxStim /\ UNCHANGED <<done, held>> /\ cat # "none" /\ cat' = "none"
   /\ \E w \in BOOLEAN :
      /\ waited' = w
-     /\ \/ \E c \in Call : SessionRegister(c) /\ Odd(FALSE) /\ Rec([a |-> "reg", c |-> c, w |-> w])
-        \/ \E c \in Call : SessionCancel(c) /\ Odd(FALSE) /\ Rec([a |-> "cancel", c |-> c, w |-> w])
+     /\ \/ \E c \in Call : SessionRegister(c) /\ Cat("conn") /\ Odd(FALSE) /\ Rec([a |-> "reg", c |-> c, w |-> w])
+        \/ \E c \in Call : SessionCancel(c) /\ Cat("conn") /\ Odd(FALSE) /\ Rec([a |-> "cancel", c |-> c, w |-> w])
         \/ \E c \in Call, n \in 1..MaxSeq, st \in Stamp :
-              HandleSend(c, st, n, TRUE) /\ Odd(st # "cur") /\ Rec([a |-> "send", c |-> c, st |-> st, n |-> n, sig |-> "ok", w |-> w])
+              HandleSend(c, st, n, TRUE) /\ (st = "cur" => Cat("flow")) /\ Odd(st # "cur") /\ Rec([a |-> "send", c |-> c, st |-> st, n |-> n, sig |-> "ok", w |-> w])
         \/ \E c \in Call, sg \in SigClass :
               HandleSend(c, "cur", 1, FALSE) /\ Odd(TRUE) /\ Rec([a |-> "send", c |-> c, st |-> "cur", n |-> 1, sig |-> sg, w |-> w])
         \/ \E c \in Call, n \in 1..MaxSeq, st \in Stamp :
-              HandleAck(c, st, n) /\ Odd(~AckUseful(c, st, n)) /\ Rec([a |-> "ack", c |-> c, st |-> st, n |-> n, w |-> w])
+              HandleAck(c, st, n) /\ (AckUseful(c, st, n) => Cat("flow")) /\ Odd(~AckUseful(c, st, n)) /\ Rec([a |-> "ack", c |-> c, st |-> st, n |-> n, w |-> w])
         \/ \E c \in Call, n \in 1..MaxSeq, st \in Stamp :
-              HandleClear(c, st, n) /\ Odd(~ClearUseful(c, st, n)) /\ Rec([a |-> "clear", c |-> c, st |-> st, n |-> n, w |-> w])
-        \/ \E l \in LCall : ListenRegister(l) /\ Odd(FALSE) /\ Rec([a |-> "lreg", c |-> l, w |-> w])
-        \/ \E l \in LCall : ListenCancel(l) /\ Odd(FALSE) /\ Rec([a |-> "lcancel", c |-> l, w |-> w])
+              HandleClear(c, st, n) /\ (ClearUseful(c, st, n) => Cat("flow")) /\ Odd(~ClearUseful(c, st, n)) /\ Rec([a |-> "clear", c |-> c, st |-> st, n |-> n, w |-> w])
+        \/ \E l \in LCall : ListenRegister(l) /\ Cat("conn") /\ Odd(FALSE) /\ Rec([a |-> "lreg", c |-> l, w |-> w])
+        \/ \E l \in LCall : ListenCancel(l) /\ Cat("conn") /\ Odd(FALSE) /\ Rec([a |-> "lcancel", c |-> l, w |-> w])
 
-Internal == /\ ((\E c \in Call : LoopStep(c)) \/ (\E l \in LCall : ListenStep(l)))
-            /\ UNCHANGED <<hist, waited, odd, done>>
+\* the driver blocks / unblocks the stream of one call: while held, the call's loop cannot progress
+HoldRel ==
+  /\ CanStim /\ Len(hist) < MaxStim /\ UNCHANGED <<vars, done, odd>> /\ cat = "gate" /\ cat' = "none"
+  /\ \E w \in BOOLEAN :
+     /\ waited' = w
+     /\ \/ /\ held = {}
+           /\ \E x \in {c \in Call : cst[c] = "reg"} \cup {l \in LCall : lst[l] = "run"} :
+                 held' = {x} /\ Rec([a |-> "hold", c |-> x, w |-> w])
+        \/ \E x \in held : held' = held \ {x} /\ Rec([a |-> "release", c |-> x, w |-> w])
+
+Internal == /\ ((\E c \in Call \ held : LoopStep(c)) \/ (\E l \in LCall \ held : ListenStep(l)))
+            /\ UNCHANGED <<hist, waited, odd, done, held, cat>>
 
 \* end of a behaviour: emit the history exactly once
 Finish == /\ ~done /\ Len(hist) >= MaxStim /\ done' = TRUE
           /\ PrintT(<<"HIST", ToJson(hist)>>)
-          /\ UNCHANGED <<vars, hist, waited, odd>>
+          /\ UNCHANGED <<vars, hist, waited, odd, held, cat>>
 
-GNext == Stim \/ Internal \/ Finish
+ChooseCat == /\ cat = "none" /\ CanStim /\ Len(hist) < MaxStim
+             /\ cat' \in Cats
+             /\ UNCHANGED <<vars, hist, waited, odd, done, held>>
+\* the chosen category has nothing enabled: choose again
+Rechoose == /\ cat # "none" /\ ~ENABLED (Stim \/ HoldRel)
+            /\ cat' = "none" /\ UNCHANGED <<vars, hist, waited, odd, done, held>>
+
+GNext == ChooseCat \/ Rechoose \/ Stim \/ HoldRel \/ Internal \/ Finish
 GSpec == GInit /\ [][GNext]_gvars
 
 =============================================================================
